@@ -33,7 +33,8 @@ PROP = dict(
          "segments, trailing slash, case flips, exempt-prefix/../protected combinations, %00, ';x') x token presentation (Bearer header "
          "right/wrong/empty/lower-case/double-space/trailing-space, Basic, bare token, ?token= right/wrong/empty, both); each request is "
          "served by the real health.Server handler under httptest with recording providers and by the Lean model; observed: "
-         "Request.Pattern (which registration ran, '-' = mux never reached), status class, provider calls; `gate` ops: the handler of an agent built by agent.New from YAML parsed by config.Parse, for ALL 54 combinations of minimal x {unset,true,false}^3 of the group "
+         "Request.Pattern (which registration ran, '-' = mux never reached), status class, provider calls; `reqh` ops: a request plus one of 9 extra header sets (CORS preflight, websocket upgrade, method / URL override, forwarding, look-alike credential headers, ...); "
+         "always emitted: every protected path x every method (incl. OPTIONS, HEAD, CONNECT, TRACE) x header sets without / with a wrong token -> 401; `gate` ops: the handler of an agent built by agent.New from YAML parsed by config.Parse, for ALL 54 combinations of minimal x {unset,true,false}^3 of the group "
          "flags, GET on group and exempt paths (configuration -> ServerConfig wiring and the documented precedence 'minimal overrides the flags'); one `race` case: goroutines present the same "
          "wrong token simultaneously against a bcrypt cost-10 hash, every answer must be 401; non-trivial = the mux was reached",
     nontrivial=lambda op, out: not out.startswith("pat=- st=401"),
